@@ -114,11 +114,28 @@ func releaseAll(rep *core.Report) {
 					core.Infra("release-all: owner could not take %s on an idle database", t)
 				}
 			}
+			// the owner also holds a lock on the OTHER file: closing a descriptor of one file releases the locks
+			// on that file only (POSIX), so this one must survive
+			other := litefs.LockTypeWrite
+			if file == "shm" {
+				other = litefs.LockTypeReserved
+			}
+			if ok, _ := db.TryLocks(ctx, a, []litefs.LockType{other}); !ok {
+				core.Infra("release-all: owner could not take %s on an idle database", other)
+			}
 			if file == "shm" {
 				db.UnlockSHM(ctx, a)
 			} else {
 				db.UnlockDatabase(ctx, a)
 			}
+			rep.Eval(1)
+			if ok, _ := db.TryLocks(ctx, b, []litefs.LockType{other}); ok {
+				_ = db.Unlock(ctx, b, []litefs.LockType{other})
+				rep.Violate("C12.unlock-releases", fmt.Sprintf("release-all/%s/also-released-the-other-file", file),
+					map[string]any{"closed_file": file, "lock_on_the_other_file": other.String(),
+						"what": "closing a descriptor of one file released the owner's lock on the other file: another owner could take it"}, map[string]any{"kind": "release-all"})
+			}
+			_ = db.Unlock(ctx, a, []litefs.LockType{other})
 			var stuck []string
 			for _, t := range set {
 				rep.Eval(1)
